@@ -44,7 +44,10 @@ import (
 const (
 	// A hash-prefix filter with an IP replacement host stores the first
 	// requester's complete response in its result cache and replays it (after
-	// SetReply) to every later requester of the same (host, qtype, class).
+	// SetReply) to every later requester of the same (host, qtype, class): TTL,
+	// blocking mode, EDE and owner-name case are the first requester's, and
+	// SetReply turns a cached NXDOMAIN or REFUSED (HTTPS question) into NOERROR
+	// even for the same requester.
 	vc12KnownRespReplay = "hashprefix-cached-response-replayed-to-other-requester"
 
 	// The same with a domain-name replacement host: the first requester's
